@@ -86,7 +86,7 @@ m = {
   "guard": "verif",
   "enable": "go build -tags verif (harness module replaces github.com/JesseCoretta/go-stackage with /repo)",
   "baseline_off_cmd": "cd /repo && GOFLAGS=-mod=mod GOPROXY=off GOSUMDB=off GOTOOLCHAIN=local go test -json -vet=off -count=1 -timeout 25m ./...",
-  "source_commits": [hook_commit],
+  "source_commits": [hook_commit, "005f561"],
   "add_only": True,
  },
  "engines": [
